@@ -255,6 +255,8 @@ enum Op {
     Next(u8),
     Clone(u8),
     Fresh,
+    /// Iterator::nth(k): an adapter the iterator may override
+    Nth(u8, u8),
 }
 
 fn gen_program(ch: &mut Chooser, depth: usize) -> Vec<Op> {
@@ -265,6 +267,7 @@ fn gen_program(ch: &mut Chooser, depth: usize) -> Vec<Op> {
         let mut menu: Vec<Option<Op>> = vec![None];
         for h in 0..live {
             menu.push(Some(Op::Next(h)));
+            menu.push(Some(Op::Nth(h, 1)));
         }
         if live < 3 {
             for h in 0..live {
@@ -308,6 +311,42 @@ fn exec_history(ctx: &mut Ctx, arena: &Arena, pl: &[u8], prog: &[Op]) {
                 let c = real[h].as_ref().map(|it| it.clone());
                 real.push(c);
                 ctx.transitions += 1;
+            }
+            Op::Nth(h, kk) => {
+                let h = h as usize;
+                let kk = kk as usize;
+                let Some(cur) = model[h] else { continue };
+                let it = real[h].as_mut().unwrap();
+                let r = ctx.call("TagIter::nth", || it.nth(kk).map(observe_item));
+                match r {
+                    Out::Val(Some(item)) => {
+                        if cur + kk < items.len() {
+                            check_item(ctx, &item, &items[cur + kk], pl, pbase, Seam::Raw);
+                            model[h] = Some(cur + kk + 1);
+                        } else {
+                            ctx.violation("c03/history/nth-extra-item", || format!("step {} {:?}: nth({}) yields a tag at offset {} with the reference cursor at {} of {}", step, op, kk, item.addr as i64 - pbase as i64, cur, items.len()));
+                            return;
+                        }
+                    }
+                    Out::Val(None) => {
+                        if cur + kk < items.len() {
+                            ctx.violation("c03/history/nth-early-none", || format!("step {} {:?}: nth({}) = None at reference cursor {} of {}", step, op, kk, cur, items.len()));
+                            return;
+                        } else if refuse {
+                            ctx.violation("c03/history/no-refusal", || format!("step {} {:?}: None where the walk must be refused", step, op));
+                            return;
+                        }
+                        model[h] = Some(items.len());
+                    }
+                    Out::Panic => {
+                        if !refuse {
+                            ctx.violation("c03/history/spurious-panic", || format!("step {} {:?}: panic on a well-formed walk", step, op));
+                            return;
+                        }
+                        model[h] = None;
+                        real[h] = None;
+                    }
+                }
             }
             Op::Next(h) => {
                 let h = h as usize;
@@ -379,9 +418,9 @@ fn run(ctx: &mut Ctx) {
         p += 8;
     }
     // histories
-    let depth = if quick { 4 } else if ctx.dev_profile() { 6 } else { 7 };
+    let depth = if quick { 4 } else if ctx.dev_profile() { 5 } else { 6 };
     let hp = if quick { 24 } else { 32 };
-    ctx.bound("histories", format!("all call sequences up to depth {} over {{next(h), clone(h), fresh()}} on up to 3 live handles (no pruning), on every payload of length 0,8,..,{} built from sizes {{8,13,16,24,0,7,P+1}} and types {{1,3}}; after a panic the handle is dropped", depth, hp));
+    ctx.bound("histories", format!("all call sequences up to depth {} over {{next(h), nth(1) on h, clone(h), fresh()}} on up to 3 live handles (no pruning), on every payload of length 0,8,..,{} built from sizes {{8,13,16,24,0,7,P+1}} and types {{1,3}}; after a panic the handle is dropped", depth, hp));
     let mut p = 0;
     while p <= hp {
         let alpha: Vec<u32> = vec![8, 13, 16, 24, 0, 7, p as u32 + 1];
